@@ -32,6 +32,7 @@ def _engine_targets(ded, results, tier):
                 q, _, var = tgt.partition("@")
                 obls = eng.verify(q, var or None)
                 rec["source_hash"], rec["line0"], rec["line1"] = eng.func_hash(q)
+            rec["_reach"] = [(f"{tgt}:{n}", fs) for n, fs in (eng.reach if not tgt.startswith("lemma:") else [])]
             rec["trivial"] = eng.trivial
             rec["externals"] = sorted(eng.used_externals)
             rec["callee_contracts"] = sorted(eng.called_contracts)
@@ -69,6 +70,21 @@ def _engine_targets(ded, results, tier):
         rec["obligations"].append({"name": o.name, "kind": o.kind, "result": r["result"], "backend": r["backend"], "ms": r["ms"],
                                    "model": r.get("model") if r["result"] == "sat" else None, "reason": r.get("reason", ""),
                                    "line": o.line})
+    # vacuity guard: the entry condition must not be refutable and at least one normal exit must be reachable
+    from .solve import reachability
+    allreach = [x for rec in out for x in rec.get("_reach", [])]
+    rres = reachability(allreach) if allreach else {}
+    for rec in out:
+        rr = {n.split(":", 1)[1]: rres.get(n) for n, _ in rec.pop("_reach", [])}
+        rec["reachability"] = rr
+        if rr:
+            exits = [v for k, v in rr.items() if k.startswith("exit")]
+            if rr.get("entry") == "unsat":
+                rec["status"] = "not-established"
+                rec["reason"] = "VACUOUS: the contract's requires are contradictory (entry condition unsat)"
+            elif exits and all(v == "unsat" for v in exits):
+                rec["status"] = "not-established"
+                rec["reason"] = "VACUOUS: no normal exit is reachable under the contract's requires"
     for rec in out:
         rec.pop("_obls", None)
         if rec["status"] is None:
@@ -211,7 +227,8 @@ def run_property(pid, prop, tier, seed, known, t0):
     functions = [{"target": r["target"], "module": r.get("module"), "status": r["status"], "obligations": len(r["obligations"]),
                   "discharged": sum(o["result"] == "unsat" for o in r["obligations"]), "source_hash": r.get("source_hash"),
                   "lines": [r.get("line0"), r.get("line1")], "callee_contracts": r.get("callee_contracts"),
-                  "externals": r.get("externals"), "reason": r.get("reason"), "kind": r.get("kind", "pyvc")} for r in ded_results]
+                  "externals": r.get("externals"), "reason": r.get("reason"), "kind": r.get("kind", "pyvc"),
+                  "reachability": r.get("reachability")} for r in ded_results]
     obl_samples = []
     for r in ded_results:
         for o in r["obligations"][:2]:
